@@ -56,20 +56,23 @@ def proof_stage(plan, ev):
             # keep a private copy of the driver so that a concurrent rebuild cannot replace it mid-run
             os.makedirs(ev['work'], exist_ok=True)
             shutil.copy(LEAN + '/.lake/build/bin/driver', ev['work'] + '/driver')
-        b = run(['lake', 'build', plan['module']], cwd=LEAN)
+        modules = [plan['module']] + plan.get('extra_modules', [])
+        b = run(['lake', 'build'] + modules, cwd=LEAN)
         if b.returncode != 0 or d.returncode != 0:
             errs = [l for l in (d.stdout + b.stdout).split('\n') if l.startswith('error:')]
             res['detail'] = 'lake build failed: theorem(s) no longer check:\n' + '\n'.join(errs[:12]) + '\n' + b.stdout[-1500:]
             res['obligations'] = max(len(plan['theorems']), 1)
             return res
-        a = run(['lake', 'env', 'lean', '--run', V + '/tools/Audit.lean', plan['module']], cwd=LEAN)
-    try:
-        audit = json.loads(a.stdout.strip().split('\n')[-1])
-    except Exception:
-        res['detail'] = 'audit produced no JSON:\n' + a.stdout[-2000:]
-        res['obligations'] = len(plan['theorems'])
-        return res
-    names = {t['name']: t['axioms'] for t in audit['theorems']}
+        audits = [run(['lake', 'env', 'lean', '--run', V + '/tools/Audit.lean', m], cwd=LEAN) for m in modules]
+    names = {}
+    for a in audits:
+        try:
+            audit = json.loads(a.stdout.strip().split('\n')[-1])
+        except Exception:
+            res['detail'] = 'audit produced no JSON:\n' + a.stdout[-2000:]
+            res['obligations'] = len(plan['theorems'])
+            return res
+        names.update({t['name']: t['axioms'] for t in audit['theorems']})
     res['theorems'] = sorted(names)
     res['obligations'] = len(names)
     bad = []
@@ -282,7 +285,7 @@ def finish(prop, plan, tier, seed, t0, pr, disagreements, oracle_fail, samples, 
     wall = time.time() - t0
     cov = dict(
         obligations=max(pr['obligations'], 1), discharged=pr['discharged'],
-        checker_cmd=f'cd /verif/lean && lake build {plan["module"]} && lake env lean --run /verif/tools/Audit.lean {plan["module"]}',
+        checker_cmd='cd /verif/lean && ' + ' && '.join(f'lake build {m} && lake env lean --run /verif/tools/Audit.lean {m}' for m in [plan['module']] + plan.get('extra_modules', [])),
         trusted_base=plans.TRUSTED_BASE + plan.get('trusted', []),
         theorems=pr['theorems'],
         programs=coverage.get('evaluations', 0),
